@@ -15,7 +15,7 @@
 From Coq Require Import String List NArith Bool Arith.
 From Sylt Require Import Lex.Regex Lex.Logos Gen.GenTokens
   Syntax.Ast Syntax.Tok Parse.PrecTable Parse.Parser Parse.ParserProofs Parse.OpTree Parse.ExprRoundTrip
-  Gen.GenPrec.
+  Parse.Sugar Parse.StmtRoundTrip Gen.GenPrec.
 Import ListNotations.
 
 (* Obligation 1 (table tie): the operator table regenerated from the Rust source on this run orders the
@@ -152,6 +152,88 @@ Example C13_unary_operand_level :
     = Some (EBin Add (EUn Neg (EGet (ARead (nm "a")))) (EGet (ARead (nm "b"))), [], 4).
 Proof. vm_compute. repeat split; reflexivity. Qed.
 
+(* ---- beyond the expression entry point ----
+   The round trip is proved for the recursive request at an arbitrary context (any tokens behind the cursor, either
+   newline mode, any legal follower), and every statement form reaches its expressions through that request; call
+   arguments, index and field chains are inside the trees [ox] already.  Spelled out for the statement forms with a
+   precedence-sensitive position (Parse/StmtRoundTrip.v): the statement that is parsed contains exactly the tree of
+   the minimally parenthesised expression, and the cursor is at the newline (resp. `do`) that follows it.
+   `a -> f(b)` is not an operator of the table: see StmtRoundTrip.v and C14_arrow_call. *)
+Theorem C13_follow_nl_do : pt_valid gen_ptab (TK KNewline) = false /\ pt_valid gen_ptab (TK KDo) = false.
+Proof. vm_compute. split; reflexivity. Qed.
+
+Theorem C13_stmt_ret : forall e, lower_ok e = true ->
+  forall p rest ov b, exists f0, forall f, f0 <= f ->
+    go gen_ptab (S f) (QStmt (mkctx p (TK KRet :: print_min e ++ TK KNewline :: rest) ov b))
+    = Ok (RS (SRet (Some (emb (minp e))))
+             (pop_nl b (skip 1 (mkctx (rev (print_min e) ++ TK KRet :: p) (TK KNewline :: rest) ov false)))).
+Proof.
+  intros e L. destruct lower_minp_all as [LM _]. destruct dwf_minp_all as [DM _].
+  exact (ret_roundtrip gen_ptab (C13_table_sound _ C13_table_ok) (proj1 C13_follow_nl_do) (minp e)
+           ltac:(rewrite LM; exact L) (DM e)).
+Qed.
+
+Theorem C13_stmt_def : forall x k kind e,
+  (k = KColonColon /\ kind = VConst) \/ (k = KColonEqual /\ kind = VMutable) ->
+  name_eqb x self_name = false -> lower_ok e = true ->
+  forall p rest ov b, exists f0, forall f, f0 <= f ->
+    go gen_ptab (S f) (QStmt (mkctx p (TIdent x :: TK k :: print_min e ++ TK KNewline :: rest) ov b))
+    = Ok (RS (SDef x kind TyImplied (emb (minp e)))
+             (pop_nl b (skip 1 (mkctx (rev (print_min e) ++ TK k :: TIdent x :: p) (TK KNewline :: rest) ov false)))).
+Proof.
+  intros x k kind e Hk Hx L. destruct lower_minp_all as [LM _]. destruct dwf_minp_all as [DM _].
+  exact (def_roundtrip gen_ptab (C13_table_sound _ C13_table_ok) (proj1 C13_follow_nl_do) x k kind (minp e) Hk Hx
+           ltac:(rewrite LM; exact L) (DM e)).
+Qed.
+
+Theorem C13_stmt_assign : forall x k op e, assign_op (TK k) = Some op -> lower_ok e = true ->
+  forall p rest ov b, exists f0, forall f, f0 <= f ->
+    go gen_ptab (S (S f)) (QStmt (mkctx p (TIdent x :: TK k :: print_min e ++ TK KNewline :: rest) ov b))
+    = Ok (RS (SAssign op (ARead x) (emb (minp e)))
+             (pop_nl b (skip 1 (mkctx (rev (print_min e) ++ TK k :: TIdent x :: p) (TK KNewline :: rest) ov false)))).
+Proof.
+  intros x k op e Hop L. destruct lower_minp_all as [LM _]. destruct dwf_minp_all as [DM _].
+  exact (assign_roundtrip gen_ptab (C13_table_sound _ C13_table_ok) (proj1 C13_follow_nl_do) x k op (minp e) Hop
+           ltac:(rewrite LM; exact L) (DM e)).
+Qed.
+
+(* `loop e do B`: the condition is the tree of e, the body is parsed from `do` *)
+Theorem C13_loop_cond : forall e, lower_ok e = true ->
+  forall p ts ov b, exists f0, forall f, f0 <= f -> forall body c3,
+    go gen_ptab f (QStmt (mkctx (rev (print_min e) ++ TK KLoop :: p) (TK KDo :: ts) ov false)) = Ok (RS body c3) ->
+    go gen_ptab (S f) (QStmt (mkctx p (TK KLoop :: print_min e ++ TK KDo :: ts) ov b))
+    = loop_finish b (emb (minp e)) body c3.
+Proof.
+  intros e L. destruct lower_minp_all as [LM _]. destruct dwf_minp_all as [DM _].
+  exact (loop_cond_step gen_ptab (C13_table_sound _ C13_table_ok) (proj2 C13_follow_nl_do) (minp e)
+           ltac:(rewrite LM; exact L) (DM e)).
+Qed.
+
+(* `if e do ...` (condition parsed with newlines skipped): the first branch carries the tree of e *)
+Theorem C13_if_cond : forall e, lower_ok e = true ->
+  forall q p ts ov b, exists f0, forall f, f0 <= f ->
+    go gen_ptab (S f) (QPrec q (mkctx p (TK KIf :: print_min e ++ TK KDo :: ts) ov b))
+    = run (go gen_ptab f)
+        (let* '(e1, c1) :=
+           (let* '(body, c6) := block (mkctx (rev (print_min e) ++ TK KIf :: p) (TK KDo :: ts) ov b) in
+            let* '(bs, c7) := call_Ifs (QElifs [IfBranch (Some (emb (minp e))) body] c6) in
+            ok (EIf bs, c7)) in
+         call (QLoop q e1 c1)).
+Proof.
+  intros e L. destruct lower_minp_all as [LM _]. destruct dwf_minp_all as [DM _].
+  exact (if_cond_step gen_ptab (C13_table_sound _ C13_table_ok) (proj2 C13_follow_nl_do) (minp e)
+           ltac:(rewrite LM; exact L) (DM e)).
+Qed.
+
+(* x = a + b * c <newline>  and  loop a < b + 1 do <newline> break <newline> end <newline> *)
+Example C13_example_statements :
+  (match parse_statement gen_ptab 40 ([TIdent (nm "x"); TK KEqual] ++ print_min (OBin Add (v "a") (OBin Mul (v "b") (v "c"))) ++ [TK KNewline])
+   with Ok (s, _) => s = SAssign OpNop (ARead (nm "x")) (emb (OBin Add (v "a") (OBin Mul (v "b") (v "c")))) | _ => False end)
+  /\ (match parse_statement gen_ptab 40 ([TK KLoop] ++ print_min (OBin (Cmp Less) (v "a") (OBin Add (v "b") (OInt 1)))
+                                          ++ [TK KDo; TK KNewline; TK KBreak; TK KNewline; TK KEnd; TK KNewline])
+       with Ok (SLoop c _, _) => c = emb (OBin (Cmp Less) (v "a") (OBin Add (v "b") (OInt 1))) | _ => False end).
+Proof. vm_compute. split; reflexivity. Qed.
+
 Print Assumptions C13_table_ok.
 Print Assumptions C13_tokens_known.
 Print Assumptions C13_table_sound.
@@ -163,6 +245,12 @@ Print Assumptions C13_same_tree.
 Print Assumptions C13_same_tree_gen.
 Print Assumptions C13_value.
 Print Assumptions C13_fuel_stable.
+Print Assumptions C13_follow_nl_do.
+Print Assumptions C13_stmt_ret.
+Print Assumptions C13_stmt_def.
+Print Assumptions C13_stmt_assign.
+Print Assumptions C13_loop_cond.
+Print Assumptions C13_if_cond.
 
 (* ---- source tie: the hand-written model behind these theorems mirrors the files below; the digests of their
    functions regenerated from /repo on this run equal the reviewed ones (coq/Doc/DocSrcDigest.v).  Any edit of
